@@ -11,6 +11,7 @@
 -/
 import Hw.Topo.HistoryLemmas
 import Hw.Topo.InsertWF
+import Hw.Topo.InsertOrder
 namespace Hw.Props.C02
 open Hw.Topo Hw.Topo.Hist
 
@@ -132,6 +133,16 @@ theorem C02_insert_preserves_laminar (t : T) (obj : IObj) (hL : Lam t) (hs : sub
   refine ⟨fun t' e => ?_, fun t' m e => ?_, fun t' e => ?_⟩ <;> rw [e] at h <;> exact ⟨h.1, h.2.1⟩
 
 open Hw.Topo.Ins in
+/-- "a Group that conflicts with the hierarchy leaves the topology unchanged": on a laminar tree whose children lists are
+ordered by the first bit of their complete cpuset (what hwloc maintains) and whose objects carry no offline / disallowed bits
+(cpuset = complete cpuset), an insertion refused because of an intersection returns EXACTLY the original tree — the put-back
+loop restores every child taken by the new object to its original position, at every depth of the recursion.  (With offline
+bits the position remembered from cpusets and the put-back by complete cpusets need not agree; that case is left to the
+differential comparison `modified-on-failure`.) -/
+theorem C02_refused_insert_unchanged (t : T) (obj : IObj) (hL : Lam t) (hO : Ord t) (hs : sub obj.key t.o.key) (t' : T)
+    (h : ins obj t = .failed t') : t' = t := ins_failed_unchanged t obj hL hO hs t' h
+
+open Hw.Topo.Ins in
 /-- the same through the public entry point `hwloc_topology_insert_group_object` (set clipping, cpuset from the nodeset,
 comparison with the root), for every argument combination -/
 theorem C02_group_insert (filterGroup rootCpuset rootNodeset : Nat) (numas : List (Nat × Nat)) (root : T) (newGp : Nat)
@@ -159,6 +170,7 @@ open Hw.Topo.Ins
 private def leaf (gp key : Nat) : T := .node { gp := gp, type := tPU, key := key, ckey := key } []
 private def demo : T := .node { gp := 0, type := tMACHINE, key := 0xf, ckey := 0xf } [leaf 1 1, leaf 2 2, leaf 3 4, leaf 4 8]
 example : lamB demo = true := by decide
+example : Ord demo := ordB_sound demo (by decide +kernel)
 example : (match ins { gp := 9, type := tGROUP, key := 0x3 } demo with | .inserted t' => rows 0 t' | _ => [])
     = [(0, 0, [], []), (9, 0, [0, 0, 0], []), (1, 9, [], []), (2, 9, [], []), (3, 0, [], []), (4, 0, [], [])] := by decide +kernel
 example : (match ins { gp := 9, type := tGROUP, key := 0x3 }
